@@ -123,6 +123,15 @@ def decide(conds, c):
     if c.op == "<=":
         o2 = facts_about(conds, p - ONE)
         if "<" in o2: return True
+    if c.op in (">=", "<"):
+        # p >= 0  <=>  p + 1 > 0 ; with q = p + 1 known as (q > 0) or (q >= 0 and q != 0)
+        o2 = facts_about(conds, p + ONE)
+        if ">=" in o2 and "!=" in o2: o2.add(">")
+        if ">" in o2: return c.op == ">="
+    if c.op in (">", "<="):
+        # p > 0  <=>  p - 1 >= 0
+        o2 = facts_about(conds, p - ONE)
+        if ">=" in o2 or ">" in o2 or "==" in o2: return c.op == ">"
     return None
 
 
